@@ -83,6 +83,10 @@ def minimallyEncode (data : Bytes) : Bytes :=
 def clamp32 (z : Int) : Int :=
   if z > 2147483647 then 2147483647 else if z < -2147483648 then -2147483648 else z
 
+/-- scriptNumber.Int64: clamp to the int64 range -/
+def clamp64 (z : Int) : Int :=
+  if z > 9223372036854775807 then 9223372036854775807 else if z < -9223372036854775808 then -9223372036854775808 else z
+
 /-- scriptNumber.Int: `int(val.Int64())` — the low 64 bits, reinterpreted as signed -/
 def wrap64 (z : Int) : Int :=
   let m := z % (2 ^ 64 : Int)
